@@ -689,7 +689,9 @@ func (fc *fileCtx) visit(n ast.Node, parent ast.Node, d int) {
 				fc.markRewritten(local)
 				fc.count("sync." + n.Sel.Name)
 			} else if n.Sel.Name == "Cond" || n.Sel.Name == "NewCond" {
-				fc.unsupported(n.Pos(), "sync.Cond")
+				fc.replace(n.Pos(), n.End(), "simrt."+n.Sel.Name, d, false)
+				fc.markRewritten(local)
+				fc.count("sync." + n.Sel.Name)
 			}
 		case "time":
 			switch n.Sel.Name {
